@@ -892,42 +892,42 @@ PROPS = {
     'C02': {'level_text': "Service!Deterministic (history variable answers: request -> set of answers) validated by Trace_Repeat on recorded histories: every request of a pool (all methods x random bias sequences, seeded orders, near-ties inside the methods' tolerances, rejected requests) executed repeatedly in one process and in several fresh processes in shuffled order; byte equality by digest", 'level_note': 'map-order dependence is only found probabilistically (R repetitions x P processes); MC_Service shows the design has no history dependence', 'families': ['repeat'], 'nontrivial': lambda o: o.get('status') == 200,
             'rule': 'events = executions of a pool of requests (all methods x random bias sequences, seeded random orders, rejected requests), repeated in-process and in several fresh processes in shuffled order; non-trivial = execution of an accepted request; distinct by request id',
             'nt_key': lambda o: o.get('rid')},
-    'C10': {'families': ['conc_model', 'conc_gated', 'conc_free'], 'nontrivial': lambda o: True,
+    'C10': {'level_text': "MC_Service explores every interleaving of two (three) handlers' steps with Isolation / RegistryUntouched / Deterministic (named deviation SharedIterator must violate Isolation); MC_Schedules enumerates gate schedules, replayed by a blocking hook (gated) and compared with solo responses; free run of 16 goroutines through the real handler built with -race on a cold process, responses compared with solo, race reports counted", 'level_note': 'gates serialise handlers between hook points (no interleaving inside a bias or Evaluate): state shared there is caught by the free run / race detector, which is an auxiliary observer and probabilistic', 'families': ['conc_model', 'conc_gated', 'conc_free'], 'nontrivial': lambda o: True,
             'rule': 'gated = one run per (TLC-generated schedule x request tuple); free = batches of ungated concurrent requests through the real handler built with -race; distinct by schedule + requests'},
-    'C20': {'families': ['service'], 'nontrivial': lambda o: o['case'].get('expect') in ('reject', 'any'),
+    'C20': {'level_text': 'Service.tla handler state machine model-checked (Survives, StatusClass, liveness Answered under weak fairness; GuardDiverging = FALSE must violate Survives); a session of valid requests, every documented constraint violated singly (Validate.tla decides the expected class from the request), malformed / mistyped / extreme / byte-mutated bodies against the REAL server process on loopback, liveness probe (GET /api/preferenceFunctions lists seven schemas) after every request; Trace_Service carries `alive`', 'level_note': 'gin internals and byte-level JSON are exercised, not modelled; per-request timeout 20 s counts as no answer', 'families': ['service'], 'nontrivial': lambda o: o['case'].get('expect') in ('reject', 'any'),
             'rule': 'cases = valid requests of all methods, every documented constraint violated singly, malformed / mistyped / mutated bodies, sent as one session to the real server process; non-trivial = request that is not a plain valid one; distinct by body'},
-    'C09': {'families': ['c09', 'pipeline'], 'nontrivial': nt_pipeline,
+    'C09': {'level_text': 'digests of the request, of every state handed on, of every report and of the pre-bias state taken at the hook point and again after the decision; earlier results re-digested after later calls; reports compared field by field with the state the next stage received (Biases.tla); histories: same request again after other (also rejected) requests, error-path sandwiches; JSON-decoded and exact-capacity inputs', 'level_note': 'library path (MakeDecision) with registries of main.go; identity of Go objects observed through digests, not modelled in TLA+', 'families': ['c09', 'pipeline'], 'nontrivial': nt_pipeline,
             'rule': 'non-trivial = library-path decision in which at least one bias fired (reports and handed-on states exist to be compared); distinct by request'},
-    'C08': {'families': ['c08', 'pipeline'], 'nontrivial': lambda o: len(o['case']['req'].get('biases', [])) >= 1 and o.get('status') == 200,
+    'C08': {'level_text': 'echo, skip-is-identity, p=1 always / p=0 never on every pipeline line; draw independence and monotonicity as satisfiability of one hidden draw per (seed, position) across groups of runs that differ in other entries / own probabilities / inserted disabled entries (incl. unknown names); firing frequency over 600 (4000) seeds within 7 sigma; FireRule, BiasEcho, SkipIsIdentity are invariants of MC_Decision over all draws', 'level_note': 'frequency clause is statistical (false alarm < 1e-11)', 'families': ['c08', 'pipeline'], 'nontrivial': lambda o: len(o['case']['req'].get('biases', [])) >= 1 and o.get('status') == 200,
             'rule': 'non-trivial = accepted request with at least one requested bias; distinct by request (seed included)'},
-    'C19': {'families': ['pipeline'], 'nontrivial': lambda o: any(e.get('fired') and 'perReferencePointsDifferences' in str(e.get('report')) for e in o.get('events', [])),
+    'C19': {'level_text': 'reference point within the admissible set (coefficient-weighted best/worst, cross-multiplied for cost), scaling = 1/range, mapped differences through linear gain/loss exactly (either branch within rounding of 0 after real-valued biases), inline: new = bound(v + range*coef), applied differences = new - old, untouched not-considered unless asked, zero functions = identity; new criterion: mid + half * importance-weighted mean (exact where small, interval otherwise), report = next state', 'level_note': 'expFromZero: sign / zero-multiplier clauses only', 'families': ['pipeline'], 'nontrivial': lambda o: any(e.get('fired') and 'perReferencePointsDifferences' in str(e.get('report')) for e in o.get('events', [])),
             'rule': 'non-trivial = request in which an anchoring bias fired; distinct by request'},
-    'C18': {'families': ['pipeline'], 'nontrivial': lambda o: any(e.get('fired') and ('addedCriteria' in str(e.get('report')) or 'component1' in str(e.get('report'))) for e in o.get('events', [])),
+    'C18': {'level_text': "one new gain criterion appended with an unused id, values for everybody, old values and parameters untouched, new weight a fraction of a reference criterion's weight whose scaled range is the reported range, Choquet capacities extended consistently, concealed values inside the bounded scaled range, mixed value = ratio*c1+(1-ratio)*c2 of two distinct rescaled criteria (cross-multiplied rescaling check against some reference target), no-op below two criteria", 'level_note': 'reference criterion decided existentially among the existing criteria', 'families': ['pipeline'], 'nontrivial': lambda o: any(e.get('fired') and ('addedCriteria' in str(e.get('report')) or 'component1' in str(e.get('report'))) for e in o.get('events', [])),
             'rule': 'non-trivial = request in which a concealment or mixing bias fired; distinct by request'},
-    'C15': {'families': ['pipeline'], 'nontrivial': lambda o: any(e.get('fired') and 'omittedCriteria' in str(e.get('report')) for e in o.get('events', [])),
+    'C15': {'level_text': "count = SplitCount, omitted within declared, partition, importance order under the method's documented importance (Importance.tla, exact states only), kept parameters / capacities / thresholds unchanged (listener algebra), twin = the request with the omitted criteria deleted (second pass) agreeing per alternative, probability orderings' first-position frequencies over 300 (3000) seeds", 'level_note': 'importance comparisons only where no earlier bias produced real numbers', 'families': ['pipeline'], 'nontrivial': lambda o: any(e.get('fired') and 'omittedCriteria' in str(e.get('report')) for e in o.get('events', [])),
             'rule': 'non-trivial = request in which a criteria-omission bias fired; distinct by request'},
-    'C16': {'families': ['pipeline'], 'nontrivial': lambda o: any(e.get('fired') and 'reversedPreferenceCriteria' in str(e.get('report')) for e in o.get('events', [])),
+    'C16': {'level_text': 'count and ordering as C15; every known alternative mirrored max+min-v with declared else currently observed range (exact on grid data, rounding slack after real-valued biases); report = next state; unselected values, criteria and parameters unchanged; double reversal of all criteria is the identity', 'families': ['pipeline'], 'nontrivial': lambda o: any(e.get('fired') and 'reversedPreferenceCriteria' in str(e.get('report')) for e in o.get('events', [])),
             'rule': 'non-trivial = request in which a preference-reversal bias fired; distinct by request'},
-    'C17': {'families': ['pipeline'], 'nontrivial': lambda o: any(e.get('fired') and 'effectiveFatigueRatio' in str(e.get('report')) for e in o.get('events', [])),
+    'C17': {'level_text': "interval contract |v'-v| <= |f v| pushed through the monotone bounding (raise to 0, then clip to the scaled range of the current data), f=0 identity, zero stays zero, report lists = state handed on, criteria/parameters unchanged, both directions among >= 30 moved values", 'level_note': 'u and the sign are seeded real numbers: only interval/relational clauses; exp ratio taken from the report', 'families': ['pipeline'], 'nontrivial': lambda o: any(e.get('fired') and 'effectiveFatigueRatio' in str(e.get('report')) for e in o.get('events', [])),
             'rule': 'non-trivial = request in which a fatigue bias fired; distinct by request'},
-    'C07': {'families': ['pipeline'], 'nontrivial': nt_pipeline,
+    'C07': {'level_text': "Decision.tla (abstract pipeline: criteria / value cover / parameter cover / split / touched values) model-checked for all bias lists up to length 2-3 with Coherent, SplitStable, Persistence; every emitted list x 7 methods plus seeded random pipelines (length <= 4, all options) and the repository's examples run through the library with hook H1; TLC validates after every bias: values and parameters cover exactly the current criteria (probe Evaluate/RankCriteriaAscending on a copy), split unchanged, criteria delta = reported delta, untouched values persist, status 200", 'level_note': 'coherence of private parameter types is observed operationally (probe) and through reflective dumps; a bias removing every criterion is outside the domain', 'families': ['pipeline'], 'nontrivial': nt_pipeline,
             'rule': 'non-trivial = request in which at least one bias fired; distinct by request'},
-    'C06': {'families': ['electre'], 'nontrivial': nt_electre2,
+    'C06': {'level_text': 'dominance, identical-alternatives, listing-order and weight-scaling relations evaluated by TLC on real ELECTRE III runs (each instance with a permuted twin and twins with all k x2 and x1/4); the same lemmas (CredOfDominator, DominanceLemma, IdenticalLemma, ScaleLemma) are invariants of MC_ElectreE on the definition', 'level_note': 'relations are comparison-only (float-safe); a change that alters indices without breaking these relations is reported by C05, not here', 'families': ['electre'], 'nontrivial': nt_electre2,
             'rule': 'non-trivial = accepted ELECTRE III request whose two preorders are not both a single class; distinct by request'},
-    'C05': {'families': ['electre_s2', 'electre'], 'nontrivial': nt_electre2,
+    'C05': {'level_text': 'exact-rational reference model Electre!CredMatrix + Electre!DistilP: stage 2 on ALL 3x3 credibility matrices over a quarter grid and random 4..6-alternative matrices over sixteenths through RankAscending/RankDescending/EvaluateRanking; stage 1 (credibility matrix via hook H2) and end-to-end indices/links on TLC-enumerated and random threshold configurations through MakeDecision; MC_Electre/MC_ElectreE check classes consecutive, progress, cut levels never rise, stepwise = recursive definition', 'level_note': "instances whose exact comparison ties involve non-dyadic numbers are flagged fragile by the spec and excluded from index equality (float arithmetic); constant thresholds only (the property's domain)", 'families': ['electre_s2', 'electre'], 'nontrivial': nt_electre2,
             'rule': 'non-trivial = instance whose two preorders are not both a single class; distinct by instance'},
-    'C12': {'families': ['aspect'], 'nontrivial': nt_heur,
+    'C12': {'level_text': 'AspectElim.tla (one examined alternative per step) model-checked with ElimSound / SurvivorsSound / StopRule; per entry: reported level, criterion and threshold equal the spec-derived level (Levels.tla) and the alternative passed every earlier check; ranking = survivors then reverse elimination classes (reference run, existential over tie-broken criteria orders / seeded orders)', 'level_note': 'same-check eliminations compared as unordered classes; generated levels only where exactly representable', 'families': ['aspect'], 'nontrivial': nt_heur,
             'rule': 'non-trivial = accepted aspect-elimination request ranking >= 3 alternatives on >= 2 different level indices; distinct by request'},
-    'C13': {'families': ['satisfaction'], 'nontrivial': nt_heur,
+    'C13': {'level_text': 'Satisfaction.tla model-checked with AcceptedSound / LeftSound / Ordered; per entry: thresholds are level thresholdsIndex of the spec-derived series, satisfied on every criterion, every earlier level failed; leftovers report #levels and the worst range ends; acceptance order equals the reference run', 'level_note': 'explicit (also non-monotone) threshold lists and generated series where exactly representable', 'families': ['satisfaction'], 'nontrivial': nt_heur,
             'rule': 'non-trivial = accepted satisfaction request ranking >= 3 alternatives on >= 2 different level indices; distinct by request'},
-    'C14': {'families': ['levels', 'aspect', 'satisfaction'], 'nontrivial': nt_levels,
+    'C14': {'level_text': "Levels.tla iterator (r' = Upd(r) while HasNext) model-checked: strictly monotone, in [0,1], finite, first-level rule, stepwise = closed form; every parameter set of the grid (valid and invalid) drives the REAL iterators wired in main.go through Find/Initialize/HasNext/Next and the whole series is compared; decimal parameters (0.001, 0.3, 0.999) contract-only; end to end through both heuristics", 'level_note': 'exact series equality on dyadic parameters; non-dyadic ones: monotone, finite, inside the range, rejection iff out of domain', 'families': ['levels', 'aspect', 'satisfaction'], 'nontrivial': nt_levels,
             'rule': 'non-trivial = valid parameter set whose real iterator yields >= 2 levels; distinct by parameter set + data set'},
-    'C11': {'families': ['majority'], 'nontrivial': nt_majority,
+    'C11': {'level_text': 'Majority.tla tournament state machine (one comparison per step; `random` policy branches) model-checked with Partition / EntriesFaithful / FinalRanking; TLC recomputes both scores of every entry from the values finally evaluated, checks opponent position, draw policy for known search order, and equality with the reference run (existential search over orders / draws for seeded orders and the random policy); decimal weights whose sums differ only in the last float bit', 'level_note': "existential search bounded to 5 alternatives; the winner's own reported value is left open by the property", 'families': ['majority'], 'nontrivial': nt_majority,
             'rule': 'non-trivial = accepted majority request with >= 3 ranked alternatives and at least one drawn comparison; distinct by request'},
     'C01': {'level_text': 'Ranking!WellFormed is an invariant of the design models (MC_Majority, MC_AspectElim, MC_Satisfaction, MC_Utility, MC_ElectreE) and is evaluated by TLC on the real response of every replayed / random / pipeline case of all seven methods (all tie patterns up to 6-7 alternatives for the majority heuristic, all draw policies, current choice inside/outside choseToMake, bias sequences)', 'level_note': 'bounded exhaustive tie patterns + seeded random instances up to 8 alternatives; only the response shape is judged (contract), no reference model needed', 'families': ['utility', 'majority', 'aspect', 'satisfaction', 'electre', 'pipeline'], 'cap': {'quick': 1200}, 'nontrivial': nt_ties,
             'rule': 'cases = TLC-enumerated instances + seeded random instances; non-trivial = accepted request whose result has >= 2 entries; distinct by request'},
     'C03': {'level_text': 'reference equality with Utility!WS2 / OWA2 / Choquet2 evaluated by TLC on the criteria values finally evaluated and the post-bias parameters recorded by the hook, on exact dyadic grids (all capacity tables over {0,1/4,1/2,1} for 2 criteria, {0,1/2,1} for 3), also after omission / reversal', 'level_note': "exact grids only (float accuracy on arbitrary reals is outside this technique); weightedSum's missing weight is a recorded known finding matched by the named deviation WSUnweighted", 'families': ['utility', 'pipeline'], 'nontrivial': nt_formula,
             'rule': 'non-trivial = accepted utility request with >= 2 criteria (weights/capacities matter); distinct by request'},
-    'C04': {'families': ['utility'], 'nontrivial': nt_ties,
+    'C04': {'level_text': 'Ranking!VOrder / VLinks (order by value then id, links = ties + next lower level) evaluated by TLC on the reported utilities of every replayed case; MC_Utility checks on the design that following these links reaches exactly the alternatives not valued higher (ReachTheorem) for all tie patterns up to 6 alternatives; listing-order twins must agree per alternative; values one 1e-8 step apart (unit 1e8) and sub-step nudges', 'level_note': 'comparison-only contract on the reported values (independent of C03); exhaustive tie patterns to n=4 (quick) / 6 (thorough), random to n=8', 'families': ['utility'], 'nontrivial': nt_ties,
             'rule': 'non-trivial = accepted utility request with >= 2 ranked alternatives; distinct by request'},
 }
